@@ -351,7 +351,7 @@ func (g *Guard) absLinkTarget(rng *rand.Rand, wantDir bool) named {
 // digests
 
 var digestClasses = []string{"enc-dotdot", "enc-dotdot", "enc-dotdot-emptydir", "enc-dotdot-new", "enc-dotdot-sha512", "alg-slash", "alg-slash", "alg-dotdot", "abs-enc",
-	"no-colon", "empty-parts", "nul", "long", "dot-enc", "inside-layout", "valid-absent", "valid-present", "multi-colon", "case-short", "odd-sep", "enc-dotdot-many", "unknown-alg"}
+	"no-colon", "empty-parts", "nul", "long", "dot-enc", "inside-layout", "valid-absent", "valid-present", "multi-colon", "case-short", "odd-sep", "enc-dotdot-many", "unknown-alg", "valid-prefix-then-dotdot", "valid-prefix-then-dotdot"}
 
 // digest builds a hostile digest string aimed at a victim, as seen from layout.
 // present is a digest that exists in the layout (for the control class).
@@ -425,6 +425,15 @@ func (g *Guard) digestRaw(rng *rand.Rand, cls, layout, present string) named {
 		return named{[]string{"sha256:.", "sha256:..", "sha256:../..", "sha256:./.", ".:.", "..:..", "sha256:../../..", "sha256:../../../.."}[rng.Intn(8)], cls}
 	case "inside-layout":
 		return named{[]string{"sha256:../../index.json", "sha256:../../oci-layout", "sha256:../sha256/" + strings.TrimPrefix(present, "sha256:"), "blobs:sha256", "sha256:./" + strings.TrimPrefix(present, "sha256:")}[rng.Intn(5)], cls}
+	case "valid-prefix-then-dotdot":
+		// starts exactly like a digest (a validation that is not anchored at the end lets it through),
+		// then leaves the directory: <hex>/../<path to the victim>
+		hex := []string{strings.Repeat("0", 64), strings.TrimPrefix(present, "sha256:"), strings.Repeat("ab", 16), strings.Repeat("c", 40)}[rng.Intn(4)]
+		tgt := []string{victimFile, emptyDir, newFile}[rng.Intn(3)]
+		if rng.Intn(4) == 0 {
+			return named{"sha512:" + strings.Repeat("0", 128) + "/../" + rel("sha512", tgt), cls}
+		}
+		return named{"sha256:" + hex + "/../" + rel("sha256", tgt), cls}
 	case "valid-absent":
 		b := make([]byte, 32)
 		rng.Read(b)
